@@ -1,0 +1,16 @@
+//go:build verif
+
+package scanner
+
+import (
+	"reflect"
+
+	"github.com/jsightapi/jsight-schema-core/verifhook"
+)
+
+func verifScanStep(step any, c byte, index, size int) {
+	if !verifhook.ScanOn() {
+		return
+	}
+	verifhook.ScanStep(verifhook.KindSchema, reflect.ValueOf(step).Pointer(), c, index, size)
+}
